@@ -76,3 +76,14 @@ VARIANTS += [
          old="        if name not in self._fixed_params:\n            return False\n\n        param_value = self._fixed_params[name]\n",
          new="        param_value = self._fixed_params.get(name)\n        if param_value is None:\n            return False\n"),
 ]
+
+VARIANTS += [
+    dict(id="c10-tpe-float-sample-unclipped", prop="C10", file="optuna/samplers/_tpe/probability_distributions.py", expect="R10.8",
+         old="                ret[:, i] = np.clip(samples, d.low, d.high)\n", new="                ret[:, i] = samples\n"),
+    dict(id="c10-tpe-int-round-to-multiples", prop="C10", file="optuna/samplers/_tpe/probability_distributions.py", expect="R10.7",
+         old="                    d.low + np.round((samples - d.low) / d.step) * d.step, d.low, d.high\n",
+         new="                    np.round(samples / d.step) * d.step, d.low, d.high\n"),
+    dict(id="c10-transform-round-unanchored", prop="C10", file="optuna/_transform.py", expect="R10.7", count=2,
+         old="np.clip(np.round((trans_param - d.low) / d.step) * d.step + d.low, d.low, d.high)",
+         new="np.clip(np.round(trans_param / d.step) * d.step, d.low, d.high)"),
+]
